@@ -52,7 +52,9 @@ ASSUMPTIONS = [
     "the reference merge table (vp/gen/c19_pairs.py: expected) is a second reading of the property statement: result names = runtime | stub-only; "
     "same-kind pairs take parameter annotations (by name), return/attribute annotations and the overload list from the stubs, keep the runtime "
     "docstring unless missing, keep runtime parameters, defaults and values; other pairs leave the runtime member untouched",
-    "where the stubs give no annotation for a parameter/return/attribute the statement is silent: the runtime annotation or none are both accepted",
+    "'takes … annotations from the stubs' is read literally: for a same-kind pair the merged parameter (by name, when the stub function has that "
+    "parameter), return (when the stubs give a plain definition) and attribute annotations ARE the stubs', also when the stubs declare none "
+    "(stubs are authoritative for what they declare - 'prefers stub types'; the merger applies this uniformly to all three fields)",
     "an overload group of the stubs without plain definition is generated only for names the runtime container defines (Griffe's stub module has "
     "no member for a bare overload group, so it is not a 'stub-only member'); the `from typing import overload` of the stubs is an ordinary stub-only alias",
     "only the runtime flag of the stub-only member itself is demanded (not of members nested inside a stub-only class)",
